@@ -6,7 +6,7 @@ CONSTANTS
   PumpLen = 2048
   Pump2Toks = 5
   Pump2Len = 1024
-  Modes = {"seq", "gram", "sweep", "pump", "pump2", "table"}
+  Modes = {"seq", "gram", "target", "sweep", "pump", "pump2", "table"}
 INIT Init
 NEXT Next
 CHECK_DEADLOCK FALSE
